@@ -331,6 +331,10 @@ pub struct RoundTripCase {
     pub rdata: Vec<u8>,
     pub mode: u8,
     pub ttl: u32,
+    /// write a filler record first so that the owner of the first copy starts at this offset
+    /// (around 16384, beyond which a name cannot be the target of a compression pointer)
+    #[serde(default)]
+    pub owner_at: Option<u16>,
 }
 
 fn qn(m: &MName) -> Box<Name> {
@@ -348,12 +352,16 @@ pub fn oracle_roundtrip(c: &RoundTripCase, st: &mut Stats) -> Verdict {
         1 => CompressionMode::CasePreserving,
         _ => CompressionMode::Disabled,
     };
-    let mut buf = vec![0u8; 4096];
+    let size = if c.owner_at.is_some() { 65535 } else { 4096 };
+    let mut buf = vec![0u8; size];
     let qname = qn(&c.qname);
     let owner = qn(&c.owner);
     let rd: &Rdata = c.rdata.as_slice().try_into().unwrap();
+    // filler: one NULL record at the root, sized so that the next owner starts at `owner_at`
+    let filler: Option<Vec<u8>> = c.owner_at.and_then(|at| (at as usize).checked_sub(12 + c.qname.wire_len() + 4 + 11)).map(|n| vec![0x5a; n]);
+    let n_filler = filler.is_some() as usize;
     let res = catch(|| {
-        let mut w = Writer::new(&mut buf, 4096).unwrap();
+        let mut w = Writer::new(&mut buf, size).unwrap();
         w.set_compression_mode(mode);
         w.add_question(&Question {
             qname: qname.clone(),
@@ -361,6 +369,11 @@ pub fn oracle_roundtrip(c: &RoundTripCase, st: &mut Stats) -> Verdict {
             qclass: Qclass::from(c.class),
         })
         .map_err(|e| format!("add_question: {e:?}"))?;
+        if let Some(f) = &filler {
+            let frd: &Rdata = f.as_slice().try_into().unwrap();
+            w.add_answer_rr(HintedName::new(Hint::None, &qn(&MName::root())), Type::from(mr::T_NULL), Class::from(c.class), Ttl::from(0), frd, None)
+                .map_err(|e| format!("add_answer_rr (filler): {e:?}"))?;
+        }
         w.add_answer_rr(
             HintedName::new(Hint::None, &owner),
             Type::from(c.rtype),
@@ -405,8 +418,13 @@ pub fn oracle_roundtrip(c: &RoundTripCase, st: &mut Stats) -> Verdict {
         st.nontrivial(&(msg, c.mode), || json!({"class": c.class, "type": c.rtype, "mode": format!("{mode:?}"), "message_hex": hex(msg)}));
     }
     st.class(&format!("mode-{mode:?}"));
+    if let Some(first) = dec.answers.get(n_filler) {
+        if n_filler == 1 && first.start < 16384 && first.start + c.owner.wire_len() > 16384 {
+            st.class("owner-straddles-offset-16384");
+        }
+    }
     let expect_exact = mode != CompressionMode::Standard;
-    for (i, rr) in dec.answers.iter().enumerate() {
+    for (i, rr) in dec.answers.iter().enumerate().skip(n_filler) {
         let same = if expect_exact {
             rr.rdata == c.rdata
         } else {
@@ -425,6 +443,9 @@ pub fn oracle_roundtrip(c: &RoundTripCase, st: &mut Stats) -> Verdict {
     let got = catch(|| {
         let mut r = Reader::try_from(msg).map_err(|e| format!("{e:?}"))?;
         r.read_question().map_err(|e| format!("read_question: {e:?}"))?;
+        if n_filler == 1 {
+            r.read_rr().map_err(|e| format!("read_rr (filler): {e:?}"))?;
+        }
         let a = r.read_rr().map_err(|e| format!("read_rr: {e:?}"))?;
         let b = r.read_rr().map_err(|e| format!("read_rr #2: {e:?}"))?;
         Ok::<_, String>((a.rdata.octets().to_vec(), b.rdata.octets().to_vec(), r.at_eom()))
@@ -473,7 +494,31 @@ fn roundtrip_case() -> impl Strategy<Value = RoundTripCase> {
         rdata: flat(&fields),
         mode,
         ttl,
+        owner_at: None,
     })
+}
+
+/// Messages of more than 16 KiB in which the record's owner starts just before offset 16384 and
+/// shares a suffix with a name in the RDATA.
+fn roundtrip_large_case() -> impl Strategy<Value = RoundTripCase> {
+    (pool_name_short(), valid_rdata(), 0u8..3, 0u16..=48, any::<u16>(), prop::bool::weighted(0.8)).prop_map(|(qname, (rtype, class, fields), mode, before, sel, share)| {
+        // owner: a suffix of an embedded name under a different first label
+        let embedded: Vec<&MName> = fields.iter().filter_map(|f| if let FieldSpec::Name(n, _) = f { Some(n) } else { None }).collect();
+        let owner = if share && !embedded.is_empty() {
+            let n = embedded[pick(sel, embedded.len())];
+            let skip = pick(sel.rotate_left(5), n.labels.len() + 1);
+            let sup = n.superdomain(skip).unwrap();
+            let c = sup.child(b"own");
+            if c.is_valid() { c } else { sup }
+        } else {
+            MName { labels: vec![b"own".to_vec(), b"example".to_vec()] }
+        };
+        RoundTripCase { qname, owner, class, rtype, rdata: flat(&fields), mode, ttl: 300, owner_at: Some(16384 - before) }
+    })
+}
+
+fn pool_name_short() -> impl Strategy<Value = MName> {
+    crate::gen::pool_name(2)
 }
 
 pub fn run(ctx: &Ctx, report: &mut Report) {
@@ -496,6 +541,7 @@ pub fn run(ctx: &Ctx, report: &mut Report) {
     );
     run_prop(ctx, report, PropSpec { name: "read", cases: t.pick(300_000, 5_000_000), max_shrink_iters: 4096 }, read_case, oracle_read);
     run_prop(ctx, report, PropSpec { name: "roundtrip", cases: t.pick(150_000, 3_000_000), max_shrink_iters: 4096 }, roundtrip_case, oracle_roundtrip);
+    run_prop(ctx, report, PropSpec { name: "roundtrip-large", cases: t.pick(20_000, 400_000), max_shrink_iters: 1024 }, roundtrip_large_case, oracle_roundtrip);
 }
 
 pub fn replay(check: &str, case: &serde_json::Value) -> Verdict {
